@@ -5,4 +5,5 @@ CONSTRAINT Bound
 INVARIANT ExactlyOnceInOrder
 INVARIANT LineCount
 INVARIANT PenCarried
+INVARIANT ProxiesIndependent
 CHECK_DEADLOCK FALSE
